@@ -17,6 +17,8 @@ def main():
         for path in sorted(glob.glob(os.path.join(VERIF, "selftest", "logs", f"*-{kind}.jsonl"))):
             prop = os.path.basename(path).split("-")[0]
             rows = [json.loads(l) for l in open(path) if l.strip()]
+            # entries of patches that no longer exist (renamed / withdrawn) are dropped
+            rows = [r for r in rows if os.path.exists(os.path.join(VERIF, r.get("patch", "")))]
             good = sum(1 for r in rows if r.get("status") in ("caught", "ok-silent"))
             out += [f"### {prop}: {good}/{len(rows)} as expected", "", "| change | outcome | passes the test suite | signature(s) reported | what it needs |", "|---|---|---|---|---|"]
             for r in rows:
